@@ -1066,6 +1066,66 @@ def explore_proto(ctx, proto, depth, batch=24, time_cap=None):
             "levels": per_level, "capped": capped, "unexpanded": len(frontier)}
 
 
+# ------------------------------------------------------------------ reason-length sweep
+SWEEP_CONFIGS = (("h3", "server", False, "settings", "confirmed"),
+                 ("h3", "client", False, "settings", "confirmed"),
+                 ("h3", "client", False, "settings", "unconfirmed"),
+                 ("h3", "server", True, "settings", "confirmed"))
+
+
+def sweep_msg(role, n):
+    """HEADERS whose invalid (upper-case) field name has n bytes: the layer quotes the name in the
+    close reason, so the peer chooses the length of the reason phrase byte by byte."""
+    c = "req:HEADERS-payload"
+    return M("%s:name-%d-uppercase" % (c, n), c, "req",
+             FR(R.HEADERS, fs(list(valid_headers(role)) + [(b"A" * n, b"v")])), qpack=True)
+
+
+def sweep_work(item):
+    config, lo, hi = item
+    out = []
+    for n in range(lo, hi):
+        msg = sweep_msg(config[1], n)
+        w = build_world(config, [])
+        if w.deliver(msg, "whole") is None:
+            raise core.HarnessError("sweep message not enabled")
+        outcome, viol = judge(w, msg)
+        ce = w.closed()
+        out.append((n, len(ce.reason_phrase) if ce is not None else None, outcome, viol))
+    return out
+
+
+def reason_sweep(ctx, lo, hi):
+    """Every reason-phrase length in a window around one packet (quick) / from empty to well beyond
+    a packet (thorough): 'whatever text the error message contains' includes every LENGTH - the
+    truncation arithmetic of the closing packet has off-by-few windows that three sample lengths
+    cannot hit."""
+    items = [(cfg, a, min(a + 25, hi)) for cfg in SWEEP_CONFIGS for a in range(lo, hi, 25)]
+    res = core.pmap(sweep_work, items, ordered=True)
+    outcomes, lens, n_runs = {}, set(), 0
+    reported = set()
+    for (cfg, _a, _b), rows in zip(items, res):
+        for n, rlen, outcome, viol in rows:
+            n_runs += 1
+            lens.add(rlen)
+            outcomes[outcome] = outcomes.get(outcome, 0) + 1
+            if viol is not None:
+                sig, what = viol
+                sig = dict(sig, part="reason_sweep")
+                k = core.stable_hash((sig, cfg))
+                if k in reported:
+                    continue
+                reported.add(k)
+                ctx.violation(sig, "[reason-length sweep, %s side, handshake %s, logger %s] %s" % (
+                    cfg[1], cfg[4], "on" if cfg[2] else "off", what),
+                    {"part": "reason_sweep", "config": list(cfg), "name_length": n})
+    if None in lens or len(lens) < (hi - lo):
+        raise core.HarnessError("reason sweep: the layer did not close with a distinct reason length per input")
+    ctx.part("reason_sweep", evaluations=n_runs, transitions=n_runs, configurations=len(SWEEP_CONFIGS),
+             name_lengths=[lo, hi - 1], reason_lengths=[min(lens), max(lens)],
+             distinct_nontrivial=len(outcomes))
+
+
 def report(ctx, name, res):
     ctx.part(name, states=res["states"], transitions=res["transitions"],
              evaluations=res["transitions"], distinct_nontrivial=len(res["outcomes"]),
@@ -1103,6 +1163,11 @@ def run(ctx):
     if not parts or "h0" in parts:
         res = explore_proto(ctx, "h0", 2 if quick else 3)
         pruned += report(ctx, "h0", res)
+    if not parts or "reason_sweep" in parts:
+        if quick:
+            reason_sweep(ctx, 1000, 1300)
+        else:
+            reason_sweep(ctx, 0, 2400)
     ms, _ = menu_for("h3", "server")
     ctx.sample({"menu_size_h3_server": len(ms), "menu_size_h3_client": len(menu_for("h3", "client")[0]),
                 "first_labels": [m["label"] for m in ms[:6]]})
@@ -1143,6 +1208,19 @@ def replay(ctx, obj):
     rp = obj["replay"]
     config = norm_config(rp["config"])
     proto, role, logger, prefix, handshake = config
+    if rp.get("part") == "reason_sweep":
+        msg = sweep_msg(role, rp["name_length"])
+        print("config: proto=%s role=%s logger=%s prefix=%s handshake=%s" % config)
+        w = build_world(config, [], trace=print)
+        print("message under test: %s" % msg["label"])
+        w.deliver(msg, "whole")
+        outcome, viol = judge(w, msg, trace=print)
+        print("outcome:", outcome)
+        if viol is not None:
+            print("VIOLATION property=C16 (replayed): %s" % viol[1])
+            return 1
+        print("no violation on replay")
+        return 0
     label, chunking = rp["last"]
     print("config: proto=%s role=%s logger=%s prefix=%s handshake=%s" % config)
     try:
